@@ -279,8 +279,15 @@ partial def coerceTo (env : Env) (ty : Ty) (v : Val) : CM Val :=
   | .vec n t, v => if isScalar v then do pure (.vec (List.replicate n (← implicitScalar t v))) else throw (.stuck "aggregate assigned to a vector")
   | _, v => pure v
 
+/-- the zero of the shape of a stored value (`x = DefaultConstructible();`) -/
+partial def zeroLike : Val → Val
+  | .i32 _ => .i32 0#32 | .u32 _ => .u32 0#32 | .f32 _ => .f32 0#32 | .bool _ => .bool false
+  | .vec xs => .vec (xs.map zeroLike) | .comp xs => .comp (xs.map zeroLike)
+  | v => v
+
 /-- Conversion to the shape of the value currently stored (used for assignments). -/
 def coerceLike (old v : Val) : CM Val :=
+  if isDflt v && !isDflt old then pure (zeroLike old) else
   match old, v with
   | .vec os, .vec xs =>
     match styOfVal old with
@@ -696,6 +703,9 @@ mutual
       let (vs, st) ← evalArgs env (fuel - 1) scope args st
       match stripPrefix "metal::" name, vs with
       | "as_type", [v] =>
+        -- `as_type<T>(c ? x : DefaultConstructible())`: the conditional converts the class-type operand to x's type (its
+        -- templated conversion operator yields T{}); the all-zero pattern reinterprets to the zero of T
+        if isDflt v then pure (← opt (zeroOf env ty) "zero value of the as_type target", st) else
         match ty with
         | .s s => if isScalar v then pure (← bitcastTo s v, st) else throw (.stuck "as_type size mismatch")
         | .vec n s => match v with
